@@ -80,6 +80,7 @@ def load():
         stdout=sys.stdout, kitty_w=kitty._stdout_write, iterm2_w=iterm2._stdout_write,
     )
     _loaded = ns
+    snapshot_library_state()
     return ns
 
 
@@ -91,7 +92,81 @@ def load_urwid():
 
         L.urwid_mod = um
         L.urwid = urwid
+        snapshot_library_state()
     return L
+
+
+# --------------------------------------------------------------------------------------
+# Generic library state (hidden nondeterminism): every module-level and class-level name of the
+# library is snapshotted right after import.  restore_library_state() (called by reset_world) puts
+# simple values back, deletes names that did not exist at import time and empties containers that
+# were empty at import time - so state a (mutated) library hoists to module or class scope cannot
+# leak from one execution into the next one.  Leaks *within* an execution stay observable; it is
+# the checks' business to look for them with multi-step histories.
+_SIMPLE = (type(None), bool, int, float, str, bytes, complex)
+_lib_snap = {}      # id(namespace owner) -> (owner, frozenset(names), [(name, value)], [(name, container)])
+
+
+def _is_simple(v):
+    if isinstance(v, _SIMPLE):
+        return True
+    if isinstance(v, (tuple, frozenset)):
+        return all(_is_simple(x) for x in v)
+    return False
+
+
+def _snap_namespace(owner, ns):
+    simple, empties = [], []
+    for k, v in list(ns.items()):
+        if k.startswith("__") and k.endswith("__"):
+            continue
+        if _is_simple(v):
+            simple.append((k, v))
+        elif isinstance(v, (dict, list, set)) and not v:
+            empties.append((k, v))
+    _lib_snap[id(owner)] = (owner, frozenset(ns.keys()), simple, empties)
+
+
+def snapshot_library_state():
+    import inspect
+
+    for name, mod in list(sys.modules.items()):
+        if not (name == "term_image" or name.startswith("term_image.")) or mod is None:
+            continue
+        if id(mod) in _lib_snap:
+            continue
+        _snap_namespace(mod, vars(mod))
+        for v in list(vars(mod).values()):
+            if inspect.isclass(v) and getattr(v, "__module__", "").startswith("term_image") \
+                    and id(v) not in _lib_snap:
+                _snap_namespace(v, vars(v))
+
+
+def restore_library_state():
+    for owner, names, simple, empties in _lib_snap.values():
+        ns = vars(owner)
+        if len(ns) != len(names):
+            for k in [k for k in ns if k not in names]:
+                try:
+                    delattr(owner, k)
+                except (AttributeError, TypeError):
+                    pass
+        for k, v in simple:
+            cur = ns.get(k, _lib_snap)
+            if cur is not v and cur != v or type(cur) is not type(v):
+                try:
+                    setattr(owner, k, v)
+                except (AttributeError, TypeError):
+                    pass
+        for k, c in empties:
+            cur = ns.get(k)
+            if cur is not c:
+                try:
+                    setattr(owner, k, c)
+                except (AttributeError, TypeError):
+                    pass
+            if c:
+                c.clear()
 
 
 # --------------------------------------------------------------------------------------
@@ -688,6 +763,7 @@ def uninstall():
 def reset_world():
     """Every memo / class-level setting back to its import-time value."""
     L = load()
+    restore_library_state()
     u = L.utils
     ti = L.ti
     u._query_timeout = 0.1
